@@ -208,6 +208,15 @@ def run(tier, seed, replay=None):
             res.violation(dict(payload, kind="oracle", document=J, what="the document's references are cyclic or malformed"))
             continue
         vals = (TEMPLATE_VALUES if di < len(TEMPLATES) and not replay else []) + dslgen.gen_values(rng, doc, 8)
+        # one member removed from the first accepted object-bearing values: aimed at `required` in both of its stored forms
+        extra = []
+        for v in vals:
+            if len(extra) >= 6:
+                break
+            if isinstance(v, (dict, list)) and quiet_call(root, v)[0] == "ok":
+                extra.extend(gen.omissions(v, 4))
+        vals = vals + extra[:6]
+        stats["omission_values"] = stats.get("omission_values", 0) + len(extra[:6])
         judged = []
         for v in vals:
             tag, _ = quiet_call(root, v)
